@@ -407,11 +407,10 @@ def step (st : St) (line : String) : St × String :=
   | ["liststyles"] => (st, joinC ((listStyles st.reg).map hexOf))
   | ["autowrap", t, style] =>
     let core := idOf t
-    let fmt := resolveStyle st.reg st.heavy (unhex style)
-    let (kind, decor) : WKind × Decoration := match fmt with
-      | .csv => (.csv, {}) | .html => (.html, {}) | .markdown => (.markdown, {}) | .json => (.json, {})
-      | .text d => (.text, d)
-    let wr : Wrapper := { kind := kind, core := core, decor := decor }
+    -- the model's `Format.wrapper` of the model's `resolveStyle`: the very object of c19_unknown / C19e
+    let wr : Wrapper := (resolveStyle st.reg st.heavy (unhex style)).wrapper core
+    let kind := wr.kind
+    let decor := wr.decor
     ({ st with w := st.w.wrapEffect kind core, wrappers := st.wrappers.push wr },
       s!"W{st.wrappers.size} kind={showKind kind} nodecor={b01 (kind = .text && decor = emptyDecoration)}")
   | ["ecnew", k] =>
